@@ -323,21 +323,18 @@ Definition to_outcome {A} (p : parser A) : bytes -> outcome A pfailure :=
 Section Header.
   Variable hdr : bytes -> hverdict.
 
+  (* raw::read_header: read_magic, then the NUL-terminated text goes to `hdr` *)
+  Definition header_frame : parser hverdict :=
+    do* magic <- p_raw 16;
+    if negb (bytes_eqb magic th_magic) then pret (HBad 0) else
+    do* json <- p_str;
+    pret (hdr json).
+
   Definition parse_header : bytes -> outcome Z pfailure :=
     fun bs =>
-      match p_raw 16 bs with
-      | ROk magic r =>
-        if negb (bytes_eqb magic th_magic) then PFail (FErr (EHeader 0)) else
-        match p_str r with
-        | ROk json r' =>
-          match hdr json with
-          | HVersion v => POk v (length bs - length r')
-          | HBad c => PFail (FErr (EHeader c))
-          end
-        | RMore => PNeedMore
-        | RFail e => PFail (FErr (EItem e))
-        | RPanic s => PFail (FPanic s)
-        end
+      match header_frame bs with
+      | ROk (HVersion v) r => POk v (length bs - length r)
+      | ROk (HBad c) _ => PFail (FErr (EHeader c))
       | RMore => PNeedMore
       | RFail e => PFail (FErr (EItem e))
       | RPanic s => PFail (FPanic s)
@@ -612,6 +609,117 @@ Definition dmsg_of (f : fitem) : dmsg :=
   | FTickSkip dt => DTickSkip dt
   | FPlayerDiff c _ _ | FPlayerNew c _ _ | FPlayerOld c => DPlayer c
   | _ => DOther
+  end.
+
+(* ================================================================== *)
+(*  6. Vocabulary of the property statements                          *)
+(* ================================================================== *)
+
+(* the records of a stream body, decoded one after the other as format::Item::decode
+   does over a whole slice, up to and including FINISH *)
+Definition msg := (ikind * fitem)%type.
+
+Inductive decodes (v : version) : bytes -> list msg -> Prop :=
+| dec_finish bs r :
+    decode_kind v bs = ROk IKFinish r -> decodes v bs [(IKFinish, FFinish)]
+| dec_cons bs k r f r' ms :
+    decode_kind v bs = ROk k r -> decode_rest k r = ROk f r' -> k <> IKFinish ->
+    decodes v r' ms -> decodes v bs ((k, f) :: ms).
+
+(* Reader::from_header *)
+Definition version_of (vn : Z) : option version :=
+  if vn =? 1 then Some V1 else if vn =? 2 then Some V2 else None.
+
+(* tick markers come in TickStart t .. TickEnd t pairs, every other item lies inside
+   a pair, and each TickStart is at least `lo` and larger than the one before *)
+Fixpoint nested (open : option Z) (lo : Z) (items : list item) : Prop :=
+  match items with
+  | [] => open = None
+  | TickStart t :: r => open = None /\ lo <= t /\ nested (Some t) (t + 1) r
+  | TickEnd t :: r => open = Some t /\ nested None lo r
+  | _ :: r => open <> None /\ nested open lo r
+  end.
+
+(* the tick each reported record lies in: the number of the enclosing TickStart *)
+Fixpoint item_ticks (open : option Z) (items : list item) : list (option Z) :=
+  match items with
+  | [] => []
+  | TickStart t :: r => item_ticks (Some t) r
+  | TickEnd _ :: r => item_ticks None r
+  | _ :: r => open :: item_ticks open r
+  end.
+
+(* records that are reported as an item of their own (TICK_SKIP and FINISH only move markers) *)
+Definition reported (f : fitem) : bool :=
+  match f with FTickSkip _ | FFinish => false | _ => true end.
+
+(* what doc/teehistorian.md says about the reported records of a message list *)
+Definition doc_reported_from (tick : Z) (ic : option Z) (fs : list fitem) : list Z :=
+  map snd (filter (fun p => reported (fst p)) (combine fs (doc_ticks_from tick ic (map dmsg_of fs)))).
+Definition doc_reported (fs : list fitem) : list Z := doc_reported_from 0 None fs.
+
+Definition is_marker (it : item) : bool :=
+  match it with TickStart _ | TickEnd _ => true | _ => false end.
+Definition payload (items : list item) : list item := filter (fun it => negb (is_marker it)) items.
+
+(* positions and inputs per client id as running sums (i32 wrapping) of what was recorded *)
+Definition upd {V} (m : Z -> option V) (k : Z) (v : option V) : Z -> option V :=
+  fun k' => if k' =? k then v else m k'.
+
+Fixpoint sums_ok (pos : Z -> option (Z * Z)) (inp : Z -> option (list Z)) (l : list (fitem * item)) : Prop :=
+  match l with
+  | [] => True
+  | (f, it) :: l' =>
+    match f with
+    | FPlayerNew c x y => it = PlayerNew c x y /\ sums_ok (upd pos c (Some (x, y))) inp l'
+    | FPlayerDiff c dx dy =>
+      exists ox oy, pos c = Some (ox, oy)
+        /\ it = PlayerChange c (wadd ox dx) (wadd oy dy) ox oy
+        /\ sums_ok (upd pos c (Some (wadd ox dx, wadd oy dy))) inp l'
+    | FPlayerOld c =>
+      exists x y, pos c = Some (x, y) /\ it = PlayerOld c x y /\ sums_ok (upd pos c None) inp l'
+    | FInputNew c d => it = Input c d /\ sums_ok pos (upd inp c (Some d)) l'
+    | FInputDiff c d =>
+      exists old, inp c = Some old /\ it = Input c (wadd_list old d)
+        /\ sums_ok pos (upd inp c (Some (wadd_list old d))) l'
+    | _ => it = Other f /\ sums_ok pos inp l'
+    end
+  end.
+
+(* the reader one message at a time: TickStart/TickEnd markers first, then the item *)
+Fixpoint emit_pre (n : nat) (r : reader) (k : ikind) : list item * option reader :=
+  match n with
+  | O => ([], None)
+  | S n' =>
+    match before_item r k with
+    | PreEmit it r' => let (its, x) := emit_pre n' (set_next None r') k in (it :: its, x)
+    | PreErr _ => ([], None)
+    | PreRead r' => ([], Some r')
+    end
+  end.
+
+Fixpoint mrun (r : reader) (ms : list msg) : list item * option reader :=
+  match ms with
+  | [] => ([], None)
+  | (k, f) :: ms' =>
+    let (pre, x) := emit_pre 4 (set_next None r) k in
+    match x with
+    | None => (pre, None)
+    | Some r1 =>
+      match after_item r1 f with
+      | Ok (Some it, r2) => let (its, fin) := mrun r2 ms' in (pre ++ it :: its, fin)
+      | Ok (None, r2) => (pre, Some r2)
+      | _ => (pre, None)
+      end
+    end
+  end.
+
+(* VecMap: number of slots allocated = largest key + 1 (the part of the real
+   data structure the model's finite map does not have; see known finding K17) *)
+Fixpoint amap_slots {V} (m : amap V) : Z :=
+  match m with
+  | [] => 0
+  | (k, _) :: m' => Z.max (k + 1) (amap_slots m')
   end.
 
 (* hashes of the hand-modelled decoders this file was written against
